@@ -43,6 +43,9 @@ func init() {
 			{ID: "R08p", Floor: 1, Doc: "nothing waits for other goroutines while it holds a store's lock: no sync.WaitGroup.Wait is reached with a guarded lock held (lock-set analysis)", Run: ruleR08p},
 			{ID: "R08q", Floor: 6, Doc: "de-duplication decides for identity CIDs as for any other when they are stored (= R04d)", Run: ruleR04d},
 			{ID: "R08r", Floor: 1, Doc: "a refused put of one goroutine leaves the shared deferred writer as it was (= R20f)", Run: ruleR20f},
+			{ID: "R08s", Floor: 1, Doc: "a struct of the pinned library gets no new field that is written (assigned, updated as a map, or used through a pointer method): state carried between calls beyond what the pinned tree carries — a remembered result, a sticky error, a cache, a wait group — is shared by concurrent callers and makes answers depend on history (fields are listed in baseline_types.txt; new structs regrouping old fields are flattened first)", Run: ruleR08s},
+			{ID: "R08t", Floor: 2, Doc: "a block is visible to other goroutines (in the index) only once its section is written (= R06a)", Run: ruleR06a},
+			{ID: "R08u", Floor: 2, Doc: "a key listing ends for its consumer however it ends for its producer: every goroutine of an AllKeysChan that sends keys closes the channel on every way out (a defer, or a close before each return)", Run: ruleR08u},
 			{ID: "R08d", Floor: 8, Doc: "guard-table completeness: every field of the concurrent types that is stored outside the constructor phase is in the guard table", Run: ruleR08d},
 			{ID: "R08i", Floor: 1, Doc: "the lazily created writer is remembered only when its construction succeeded (a failed first initialisation is retried, not turned into a nil writer for the next caller) (= R16f)", Run: ruleR16f},
 		},
